@@ -416,38 +416,18 @@ Lemma struct_field_tokens_map phi d codec s1 s2 k ph :
   rmap (map phi) (struct_field_tokens s1 k ph codec).
 Proof.
   intros Hok Ha Hph.
-  assert (Hm1 : map phi (match ph with
-                         | Some p => (if codec then codec_skip else []) ++ ["pub"; "__ignore"; ":"] ++ p
-                         | None => []
-                         end) =
-                match ph with
-                | Some p => (if codec then codec_skip else []) ++ ["pub"; "__ignore"; ":"] ++ p
-                | None => []
-                end).
-  { destruct ph as [p|]; [|reflexivity].
-    rewrite !map_app, (Hph p eq_refl), (em_codec_skip_map phi d codec Hok).
-    cbn [map]. fix_lits phi Hok. reflexivity. }
-  assert (Hm2 : map phi (match ph with
-                         | Some p => (if codec then codec_skip else []) ++ ["pub"] ++ p
-                         | None => []
-                         end) =
-                match ph with
-                | Some p => (if codec then codec_skip else []) ++ ["pub"] ++ p
-                | None => []
-                end).
-  { destruct ph as [p|]; [|reflexivity].
-    rewrite !map_app, (Hph p eq_refl), (em_codec_skip_map phi d codec Hok).
-    cbn [map]. fix_lits phi Hok. reflexivity. }
+  assert (Hsk := em_codec_skip_map phi d codec Hok).
+  destruct ph as [p|]; [pose proof (Hph p eq_refl) as Hp|]; clear Hph;
   destruct k as [|fs|fs]; cbn [map_ckind struct_field_tokens].
-  - destruct ph as [p|]; cbn [rmap bind]; [|reflexivity].
-    f_equal. rewrite !map_app, (Hph p eq_refl). cbn [map]. fix_lits phi Hok. reflexivity.
+  - cbn [rmap bind]. f_equal. rewrite !map_app, Hp. cbn [map]. fix_lits phi Hok. reflexivity.
+  - reflexivity.
   - rewrite (em_mapM_map
                (fun '(name, f) =>
                   let* t := field_tokens s1 f in
                   Ok (compact_attr_of codec f ++ ["pub"; name; ":"] ++ t ++ [","]))
                _ _ (map phi)).
     + destruct (mapM _ fs) as [l|e|msg]; cbn [rmap bind]; try reflexivity.
-      f_equal. rewrite !map_app, concat_map, Hm1. cbn [map]. fix_lits phi Hok. reflexivity.
+      f_equal. rewrite !map_app, concat_map, ?Hp, ?Hsk. cbn [map]. fix_lits phi Hok. reflexivity.
     + intros [name f] _. cbn [fst snd].
       rewrite (field_tokens_map phi d codec s1 s2 f Hok Ha).
       destruct (field_tokens s1 f) as [t|e|msg]; cbn [rmap bind]; try reflexivity.
@@ -459,7 +439,7 @@ Proof.
                   Ok (compact_attr_of codec f ++ ["pub"] ++ t ++ [","]))
                _ _ (map phi)).
     + destruct (mapM _ fs) as [l|e|msg]; cbn [rmap bind]; try reflexivity.
-      f_equal. rewrite !map_app, concat_map, Hm2. cbn [map]. fix_lits phi Hok. reflexivity.
+      f_equal. rewrite !map_app, concat_map, ?Hp, ?Hsk. cbn [map]. fix_lits phi Hok. reflexivity.
     + intros f _.
       rewrite (field_tokens_map phi d codec s1 s2 f Hok Ha).
       destruct (field_tokens s1 f) as [t|e|msg]; cbn [rmap bind]; try reflexivity.
